@@ -218,6 +218,7 @@ def run_impl(case):
     from stable_baselines3.her.her_replay_buffer import HerReplayBuffer
 
     th.set_num_threads(1)
+    np.random.seed(case["id"] % (2 ** 31))       # the ordinary sample() calls draw from numpy's global generator
     obs_sp, act_sp = make_spaces(case)
     venv = make_venv(case, obs_sp, act_sp)
     n = case["n_envs"]
@@ -254,6 +255,8 @@ def run_impl(case):
                 with warnings.catch_warnings():
                     warnings.simplefilter("ignore")
                     buf.truncate_last_trajectory()
+            elif op["op"] == "reset":
+                buf.reset()
             elif op["op"] == "pickle":
                 buf = pickle.loads(pickle.dumps(buf))
                 if buf.env is not None:
@@ -351,6 +354,9 @@ def observe(buf, case, op, vn, o_rand, o_choice):
             rec["sample"] = tuples9(s)
         except RuntimeError as e:
             rec["sample_err"] = str(e)[:60]
+        except ValueError as e:
+            rec["sample_err"] = str(e)[:60]
+            rec["problems"].append(f"sample({B}) raised ValueError: {e} (goal draw range of a sampleable cell is empty)")
         if vn is not None and "sample" in rec:
             log2 = {"choice": list(log["choice"]), "randint": list(log["randint"])}
             np.random.set_state(state)               # same draws again, now normalised
@@ -465,6 +471,15 @@ def oracle(case, impl):
         if op["op"] == "pickle":
             check_segments(next(states, []), f"after a pickle round trip (after add #{total})")
             continue
+        if op["op"] == "reset":
+            # reset() empties the buffer: nothing added before it is stored any more, the next add goes to slot 0
+            for r in by_act.values():
+                r["discarded"] = True
+            for d_ in slot_truth:
+                d_.clear()
+            running, total = [None] * n, 0
+            check_segments(next(states, []), "after reset()")
+            continue
         rec = next(it)
         check_segments([[c["i"], c["e"], c["st"], c["ln"]] for c in rec["cells"]], f"at an observation point (after add #{total})")
         for p in rec["problems"]:
@@ -477,6 +492,9 @@ def oracle(case, impl):
                 probs.append(("oracle-not-a-stored-transition", f"{where}: action tag {act} was never added"))
                 return None
             f = r["f"]
+            if r.get("discarded"):
+                probs.append(("oracle-transition-from-before-reset-returned", f"{where}: transition #{act} was added before reset()"))
+                return None
             if not r["finished"]:
                 probs.append(("oracle-unfinished-episode-returned", f"{where}: transition #{act} of env {r['e']} belongs to an episode that has not ended"))
             if r["add"] < total - cap:
@@ -553,7 +571,7 @@ def model_expr(case):
 
     ops = []
     for op in case["ops"]:
-        ops.append({"add": lambda: "HHAdd " + coq_list(op["row"], hin), "trunc": lambda: "HHTrunc", "pickle": lambda: "HHPickle", "obs": lambda: "HHObs"}[op["op"]]())
+        ops.append({"add": lambda: "HHAdd " + coq_list(op["row"], hin), "trunc": lambda: "HHTrunc", "pickle": lambda: "HHPickle", "obs": lambda: "HHObs", "reset": lambda: "HHReset"}[op["op"]]())
     return (f"hhrun {STRATS[case['strategy']]} {coq_bool(case['copy_info'])} "
             f"(her_create {coq_Z(case['buffer_size'])} {coq_Z(case['n_envs'])} {coq_bool(case['hto'])}) {coq_list(ops)}")
 
@@ -607,7 +625,8 @@ def compare_model(case, impl, mv):
                 k = next((k for k, (a, b) in enumerate(zip(exp + [None], rec["sample"] + [None])) if a != b), None)
                 probs.append(("sample-vs-table", f"obs #{j}: sample() element {k} = {rec['sample'][k] if k is not None and k < B else None}, table entry {exp[k] if k is not None and k < len(exp) else None} "
                                                  f"(drawn cells {drawn}, goal draws {kks})"))
-        elif rec["valid"]:
+        elif rec["valid"] and not any(c["hi"] <= c["lo"] for c in rec["cells"]):
+            # (a sampleable cell with an empty goal range - which the model shows too - makes np.random.randint raise)
             probs.append(("sample-raises", f"obs #{j}: sample() raised although the model has sampleable cells"))
     return probs
 
@@ -690,6 +709,41 @@ def share_check():
     return bad
 
 
+def api_guards():
+    """constructor / set_env guards of the public API (fixed inputs): list of (signature, message)"""
+    import pickle
+
+    from stable_baselines3.her.her_replay_buffer import HerReplayBuffer
+
+    probs = []
+    case = {"obs_kind": "box3", "goal_dim": 1, "act_kind": "box", "n_envs": 1}
+    obs_sp, act_sp = make_spaces(case)
+    venv = make_venv(case, obs_sp, act_sp)
+    try:
+        HerReplayBuffer(4, obs_sp, act_sp, env=venv, device="cpu", optimize_memory_usage=True, handle_timeout_termination=False)
+        probs.append(("oracle-guard-memopt-accepted", "HerReplayBuffer(optimize_memory_usage=True) was accepted (next observations would share the observation array)"))
+    except (AssertionError, ValueError):
+        pass
+    try:
+        HerReplayBuffer(4, obs_sp, act_sp, env=venv, device="cpu", goal_selection_strategy="nearest")
+        probs.append(("oracle-guard-unknown-strategy-accepted", "an unknown goal_selection_strategy was accepted"))
+    except (AssertionError, ValueError, KeyError):
+        pass
+    buf = HerReplayBuffer(4, obs_sp, act_sp, env=venv, device="cpu")
+    try:
+        buf.set_env(venv)
+        probs.append(("oracle-guard-set-env-twice", "set_env() replaced the env of a buffer that already has one"))
+    except ValueError:
+        pass
+    b2 = pickle.loads(pickle.dumps(buf))
+    if b2.env is not None:
+        probs.append(("oracle-guard-pickle-keeps-env", "a pickled buffer kept its env"))
+    b2.set_env(venv)
+    if b2.env is not venv:
+        probs.append(("oracle-guard-set-env", "set_env() after unpickling did not install the env"))
+    return probs
+
+
 def nontrivial(case, impl):
     if impl.get("crash"):
         return False
@@ -706,11 +760,13 @@ def load_corpus():
 def main():
     chk = Check("C16", groups=["her"])
     chk.build_props()
-    n_cases = 700 if chk.tier == "quick" else 7000
+    n_cases = 550 if chk.tier == "quick" else 6000
     cases = load_corpus()
     n_corpus = len(cases)
     for i in range(n_cases):
         cases.append(gen_case(chk.rng, i))
+    for sig, msg in api_guards():
+        chk.violation(sig, msg, {"fixed_input": "harness/c16.py api_guards()"}, found_input=True)
     bad = share_check()
     if bad:
         chk.violation("oracle-relabelled-share-float", f"int(her_ratio * B) != floor(n*B/(n+1)) for (n, B, code, law) = {bad[:5]}", {"mismatches": bad[:50]}, found_input=True)
